@@ -72,7 +72,7 @@ def check(prop, tier, seed):
             sc["fclear"] = rng.choice([1, 1, 2, 3, 9])     # clear() with a panicking destructor (or none: k too large)
         scripts.append(sc)
         tid += 1
-    workdir = os.path.join(C.OUT, "work", key)
+    workdir = os.path.join(C.OUT, "work", "%s_%d" % (key, os.getpid()))
     C.sh(["rm", "-rf", workdir])
     r = C.exec_and_validate("cs", scripts, workdir, "ChangeSet_Trace.tla", "ChangeSet_Trace.cfg", events_per_chunk=2000)
     res.update(n_scripts=r["n_scripts"], n_events=r["n_events"], wall_s=r["wall_s"])
